@@ -507,6 +507,9 @@ def selftest(mod, tier, seed, root, n=200):
             if bad:
                 raise HarnessError('%d workers: digests differ for runs %r' % (workers, bad[:5]))
         print('determinism: %d seeds x 6 executions agree' % n)
+        orc = getattr(mod, 'oracle_selftest', None)
+        if orc is not None:
+            print('oracle: ' + orc())
         fid = getattr(mod, 'fidelity_selftest', None)
         if fid is not None:
             msg = fid(seed)
